@@ -171,7 +171,7 @@ func (c *cancelCtx) propagate(s *Sched, t *Task) {
 			c.cancel(false, pc.err, &me.st)
 		}
 	})
-	pt.Free = true
+	_ = pt
 }
 
 // WithCancel replaces context.WithCancel.
@@ -286,7 +286,6 @@ func WithDeadline(parent context.Context, d time.Time) (context.Context, context
 			}
 		})
 		c.timerTask.timer = true
-		c.timerTask.Free = true
 	}
 	return c, func() { c.userCancel(context.Canceled) }
 }
@@ -317,3 +316,12 @@ func CtxErrNoYield(ctx context.Context) error {
 
 // SetTimers enables or disables firing of deadline timers in this execution.
 func SetTimers(on bool) { S.timers = on }
+
+// MarkTimerFree makes the deadline timer of ctx (created by WithDeadline /
+// WithTimeout in this execution) an environment event: it may fire anywhere
+// without counting as a preemption.
+func MarkTimerFree(ctx context.Context) {
+	if c, ok := ctx.(*cancelCtx); ok && c.timerTask != nil {
+		c.timerTask.Free = true
+	}
+}
